@@ -42,7 +42,7 @@ func C03(ctx *core.Ctx) {
 		} else {
 			steps := []seqStep{{"WriteRequestHeader", protoStep(oprot, "WriteRequestHeader")}, {"WriteMessageBegin", protoStep(oprot, "WriteMessageBegin")},
 				{"args.Write", protoStep(oprot, "body.Write")}, {"WriteMessageEnd", protoStep(oprot, "WriteMessageEnd")}, {"Flush", protoStep(oprot, "Flush")}}
-			checkSequence(ctx, r, "C03.R4", ssax.Name(pm)+" › request message", pm, nil, steps, nilErrorReturn)
+			checkSequence(ctx, r, "C03.R4", ssax.Name(pm)+" › request message", pm, nil, steps, successReturn)
 			// returns the bytes of that buffer; method name and kind are the parameters
 			okRet := false
 			for _, vs := range ReturnedValues(pm) {
@@ -200,7 +200,7 @@ func C03(ctx *core.Ctx) {
 			steps := []seqStep{{"Skip(args)", protoStep(iprot, "Skip")}, {"ReadMessageEnd", protoStep(iprot, "ReadMessageEnd")},
 				{"WriteResponseHeader", protoStep(oprot, "WriteResponseHeader")}, {"WriteMessageBegin", protoStep(oprot, "WriteMessageBegin")},
 				{"exception.Write", protoStep(oprot, "body.Write")}, {"WriteMessageEnd", protoStep(oprot, "WriteMessageEnd")}, {"Flush", protoStep(oprot, "Flush")}}
-			checkSequence(ctx, r, "C03.R5", ssax.Name(proc)+" › unknown method: request drained, then exception reply", proc, missFirst, steps, nilErrorReturn)
+			checkSequence(ctx, r, "C03.R5", ssax.Name(proc)+" › unknown method: request drained, then exception reply", proc, missFirst, steps, successReturn)
 		}
 		// the processor function gets the request's fctx and both protocols
 		for _, c := range ssax.Calls(proc) {
